@@ -30,6 +30,38 @@ class ModuleInfo:
         self.funcs, self.classes, self.assigns, self.imports = {}, {}, {}, {}
         self.cache = {}
         self._scan(tree.body)
+        self.runtime_written = self._runtime_written(tree)
+
+    def _runtime_written(self, tree):
+        """module-level names that some function of the module assigns (global statement) or mutates in place at run time: their
+        value is not a constant of the module but depends on the call history"""
+        from .alpha import function_locals
+        from .loops import _MUTATORS
+        out = set()
+        for fn in ast.walk(tree):
+            if not isinstance(fn, (ast.FunctionDef, ast.AsyncFunctionDef)):
+                continue
+            glob = set()
+            for n in ast.walk(fn):
+                if isinstance(n, ast.Global):
+                    glob.update(n.names)
+            out |= glob
+            local = set(function_locals(fn)) - glob
+
+            def base(e):
+                while isinstance(e, (ast.Subscript, ast.Attribute)):
+                    e = e.value
+                return e.id if isinstance(e, ast.Name) else None
+            for n in ast.walk(fn):
+                b = None
+                if isinstance(n, ast.Subscript) and isinstance(n.ctx, (ast.Store, ast.Del)):
+                    b = base(n)
+                elif isinstance(n, ast.Call) and isinstance(n.func, ast.Attribute) and n.func.attr in _MUTATORS \
+                        and isinstance(n.func.value, ast.Name):
+                    b = n.func.value.id
+                if b and b not in local and b in self.assigns:
+                    out.add(b)
+        return out
 
     def _scan(self, body):
         for st in body:
@@ -278,6 +310,9 @@ class Interp:
         key = (mod.name, name)
         if key in self.cfg.globals:
             return self.cfg.globals[key]
+        if name in mod.runtime_written:
+            raise Unsupported(f"module-level variable {mod.name}.{name} is assigned or mutated by a function at run time: its value "
+                              "depends on the call history and is not a constant of the module")
         if name in mod.cache:
             return mod.cache[name]
         if (mod.name, name) in seen:
